@@ -407,6 +407,137 @@ func TestVerifC15(t *testing.T) {
 	}
 	rep.Floor("row_fault_injections", 5)
 	lap("3_fault_enumeration")
+	// ------------------------------------------------------------ (3b) a large installation
+	// the same question with 1 300 users (anything that copies in batches or pages has several of them): the
+	// synchronisation is interrupted early, in the middle and near the end of the primary's rows and of the cache's
+	// writes; old-or-new must hold whatever the size
+	{
+		env.SyncCache()
+		type prow struct {
+			u string
+			b []byte
+		}
+		var sp []prow
+		rows, _ := sideC.Query("select username, profile_data from user_profile")
+		for rows.Next() {
+			var r prow
+			rows.Scan(&r.u, &r.b)
+			sp = append(sp, r)
+		}
+		rows.Close()
+		type rrow struct {
+			u    string
+			t    int
+			j    string
+			e, x int64
+		}
+		var sr []rrow
+		rows, _ = sideC.Query("select username, type, jws_data, expiration_epoch, update_epoch from expiring_signed_user_data")
+		for rows.Next() {
+			var r rrow
+			rows.Scan(&r.u, &r.t, &r.j, &r.e, &r.x)
+			sr = append(sr, r)
+		}
+		rows.Close()
+		restore := func() {
+			tx, _ := sideC.Begin()
+			tx.Exec("delete from user_profile")
+			tx.Exec("delete from expiring_signed_user_data")
+			for _, r := range sp {
+				tx.Exec("insert into user_profile(username, profile_data) values(?,?)", r.u, r.b)
+			}
+			for _, r := range sr {
+				tx.Exec("insert into expiring_signed_user_data(username,type,jws_data,expiration_epoch,update_epoch) values(?,?,?,?,?)", r.u, r.t, r.j, r.e, r.x)
+			}
+			tx.Commit()
+		}
+		bp, br := c15Rows(sideC, false)
+		before := c15Canon(bp, br)
+		const nBig = 1300
+		{
+			var blob []byte
+			side.QueryRow("select profile_data from user_profile where username=?", real[0].name).Scan(&blob)
+			tx, _ := side.Begin()
+			for i := 0; i < nBig; i++ {
+				tx.Exec("insert into user_profile(username, profile_data) values(?,?)", fmt.Sprintf("big%05d", i), blob)
+			}
+			tx.Commit()
+		}
+		wp, wr := c15Rows(side, true)
+		want := c15Canon(wp, wr)
+		verifSQL.Record(true)
+		verifSQL.ResetSeq(pl)
+		verifSQL.ResetSeq(cl)
+		if err := env.SyncCache(); err != nil {
+			rep.Inconc("large installation: clean sync failed: %v", err)
+		}
+		nCalls := map[string]int{}
+		for _, o := range verifSQL.Log() {
+			if o.Seq > nCalls[o.DB] {
+				nCalls[o.DB] = o.Seq
+			}
+		}
+		verifSQL.Record(false)
+		if gp, gr := c15Rows(sideC, false); c15Canon(gp, gr) != want {
+			rep.Violate("C15/faults/clean-sync-wrong/large", "a clean synchronisation of a large installation did not produce the primary's content", nil)
+		}
+		judge := func(what string, err error, c map[string]interface{}) {
+			ap, ar := c15Rows(sideC, false)
+			after := c15Canon(ap, ar)
+			outcome := "old"
+			if after == want {
+				outcome = "new"
+			} else if after != before {
+				outcome = "MIXTURE"
+			}
+			rep.Eval(fmt.Sprintf("large|%s|err=%v|%s", what, err != nil, outcome))
+			rep.Count("large_installation_injections", 1)
+			c["sync_error"], c["users_in_primary"], c["users_in_cache_after"] = fmt.Sprint(err), len(wp), len(ap)
+			if outcome == "MIXTURE" {
+				rep.Violate("C15/faults/mixture/large-installation/"+what, "an interrupted synchronisation of a large installation left the cache neither at its previous nor at its new content", c)
+			} else if err == nil && outcome == "old" {
+				rep.Violate("C15/faults/silent-failure/large-installation/"+what, "the synchronisation reported success but the cache was not updated", c)
+			}
+		}
+		for _, at := range []int{3, nBig / 3, nBig/2 + 7, nBig - 1, nBig + len(sp)/2} {
+			restore()
+			atRow := at
+			verifSQL.SetRowFault(pl, func(q string, k int) error {
+				if verifStmtClass(q) == "select:user_profile" && k == atRow {
+					return errVerifInjected
+				}
+				return nil
+			})
+			err := env.SyncCache()
+			verifSQL.SetRowFault(pl, nil)
+			judge("primary-row-fetch", err, map[string]interface{}{"fault": "row fetch fails on the primary", "row": atRow})
+		}
+		for _, frac := range []int{4, 2, 1} {
+			restore()
+			verifSQL.ResetSeq(pl)
+			verifSQL.ResetSeq(cl)
+			kk := nCalls[cl] - nCalls[cl]/frac/2 - 5
+			if frac == 1 {
+				kk = nCalls[cl] - 2
+			}
+			cut := false
+			verifSQL.SetHook(cl, func(op verifSQLOp) error {
+				if cut || op.Seq == kk {
+					cut = true
+					return errVerifInjected
+				}
+				return nil
+			})
+			err := env.SyncCache()
+			verifSQL.SetHook(cl, nil)
+			judge("cache-connection-cut", err, map[string]interface{}{"fault": "cache connection cut", "driver_call": kk, "driver_calls_in_clean_sync": nCalls[cl]})
+		}
+		side.Exec("delete from user_profile where username like 'big%'")
+		restore()
+		env.SyncCache()
+		rep.Floor("large_installation_injections", 6)
+	}
+	lap("3b_large_installation")
 	// ------------------------------------------------------------ (4) outage
 	gate := newVerifOutage()
 	verifSQL.SetHook(pl, gate.Hook)
